@@ -20,7 +20,7 @@ FLOORS = {"quick": {"op:cat": 500, "op:pad": 500, "op:pad_ttm": 400, "op:diag_em
                     "op:mprod": 400, "pad:value!=0": 300, "pad:subset_of_modes": 200, "mprod:list": 100}}
 ASSUMPTIONS = ["pad widths are non-negative; operator pad with some trailing modes unpadded treats them as width (0,0) "
                "(no corner block exists then, everything outside the original block is 0)",
-               "diag extraction is generated for square operators only"]
+               "diag extraction of a rectangular operator is the diagonal x[i] = A[i,i] over i_k < min(M_k, N_k)"]
 
 SZ = (1, 2, 3, 4, 5)
 VALUES = [0, 0, 2, -1.5, 0.5, 0.3, 1.0 / 3.0, -0.1]
@@ -60,7 +60,11 @@ def strategy_case(draw):
         return {"op": op, "x": x}
     if op == "diag_extract":
         N = draw(gen.modes(1, 4, (1, 2, 3, 4), maxnumel=60))
-        x = draw(gen.tt_spec(N=N, M=N, dt=dt, mode=mode))
+        M = list(N)
+        if draw(st.integers(0, 2)) == 0:
+            # rectangular modes: the diagonal x[i] = A[i, i] runs over i_k < min(M_k, N_k) (tall and wide blocks)
+            M = [draw(st.integers(1, 5)) for _ in N]
+        x = draw(gen.tt_spec(N=N, M=M, dt=dt, mode=mode))
         return {"op": op, "x": x}
     x = draw(gen.tt_spec(dmin=1, dmax=4, sizes=SZ, dt=dt, mode=mode, maxnumel=600))
     d = len(x["N"])
@@ -220,9 +224,12 @@ def execute(case):
 
     if op == "diag_extract":
         res = lib(lambda: T.diag(x))
-        tot = int(np.prod(xs["N"]))
-        ref = torch.diagonal(xd.reshape(tot, tot)).reshape(xs["N"])
-        ref_abs = torch.diagonal(xa.reshape(tot, tot)).reshape(xs["N"])
+        mins = [min(m, n) for m, n in zip(xs["M"], xs["N"])]
+        grids = torch.meshgrid(*[torch.arange(k) for k in mins], indexing="ij")
+        ref = xd[tuple(grids) + tuple(grids)]
+        ref_abs = xa[tuple(grids) + tuple(grids)]
+        if xs["M"] != xs["N"]:
+            ck.label("diag:rectangular")
         _check_tt(ck, T, res, ref, ref_abs, dt, exact, False)
         ck.nontrivial = big and d >= 2
         return ck.verdict()
